@@ -33,7 +33,7 @@ pub fn register(m: &mut HashMap<&'static str, OpFn>) {
         let b = a.bytes(0);
         let p = <EdwardsPoint as group::Group>::random(FixedRng(b.clone(), 0));
         let s = <SubgroupPoint as group::Group>::random(FixedRng(b, 0));
-        vec![hex(p.compress().as_bytes()), hex(s.to_bytes().as_ref())]
+        vec![ed_hex_checked(&p), ed_hex_checked(&EdwardsPoint::from(s))]
     });
     m.insert("misc.sk_generate", |a| {
         let b = a.bytes(0);
